@@ -54,6 +54,13 @@ def run(ck, modes=None, audit=False):
     if ok and ck.cargo_build(BINS):
         for m in (modes or MODES):
             ck.correspond("full-timestep-" + m, "drv_step", ck.harness("fullstep", [m]))
+        # the same whole time steps with the real code compiled WITHOUT debug assertions (release semantics): a change whose
+        # effect is hidden behind debug_assert! (e.g. a side effect moved into one) is invisible in the dev profile
+        if ck.cargo_build(BINS, profile="nodebug"):
+            for m in (modes or MODES):
+                ck.correspond("full-timestep-" + m + "-release", "drv_step", ck.harness("fullstep", [m], profile="nodebug"))
+        else:
+            ok = False
     else:
         ok = False
     return ok
